@@ -218,4 +218,24 @@ StripShape(t) ==
          LET need == ~IsPunct(r.toks[k]) /\ (~IsPunct(r.toks[k + 1]) \/ IsSpread(r.toks[k + 1])) IN
          IF need THEN r.toks[k + 1].start = r.toks[k].end + 1 /\ At(t, r.toks[k].end) = SP
          ELSE r.toks[k].end = r.toks[k + 1].start
+
+\* ---- block string values (C08) -------------------------------------------------------
+\* split a value at LF (values never contain other terminators once lexed)
+RECURSIVE SplitLF(_, _, _)
+SplitLF(v, k, cur) == IF k > Len(v) THEN <<cur>>
+                      ELSE IF v[k] = LF THEN <<cur>> \o SplitLF(v, k + 1, <<>>) ELSE SplitLF(v, k + 1, Append(cur, v[k]))
+\* the values some block string token denotes: no CR, and the raw text v itself - or v after a leading line
+\* terminator (which turns the first line of v into an ordinary line) - is mapped to v by BlockStringValue
+DenotedBy(raw) == JoinLF(BlockStringValue(SplitLF(raw, 1, <<>>)))
+Representable(v) == (\A k \in 1..Len(v) : v[k] # CR) /\ (DenotedBy(v) = v \/ DenotedBy(<<LF>> \o v) = v)
+\* the value denoted by a source that is exactly one string token (or <<EOFc>> if it is not)
+NotOneString == <<EOFc>>
+StringValueOf(src) == LET r == Lex(src) IN
+  IF r.ok /\ Len(r.toks) = 1 /\ r.toks[1].kind \in {"String", "BlockString"} /\ r.toks[1].start = 0 /\ r.toks[1].end = Len(src)
+  THEN r.toks[1].value ELSE NotOneString
+\* string token values of a source, in order
+RECURSIVE StringValues(_)
+StringValues(toks) == IF toks = <<>> THEN <<>>
+                      ELSE IF Head(toks).kind \in {"String", "BlockString"} THEN <<Head(toks).value>> \o StringValues(Tail(toks))
+                      ELSE StringValues(Tail(toks))
 =============================================================================
